@@ -169,6 +169,11 @@ var leafElementsByMsgFullName = map[string]struct{}{
 //
 // WATCHOUT: There are almost certainly cases that do not return an error
 // but return an incorrect FHIRPath.
+// reservedWords are the FHIRPath keywords that are not valid as plain identifiers.
+var reservedWords = map[string]bool{
+	"div": true, "mod": true, "and": true, "or": true, "xor": true, "implies": true, "true": true, "false": true,
+}
+
 func computeFHIRPathOfProtoPath(p protopath.Path) (string, error) {
 	fhirpath := []string{}
 	for _, step := range p {
@@ -185,6 +190,10 @@ func computeFHIRPathOfProtoPath(p protopath.Path) (string, error) {
 				return "", fmt.Errorf("%w: for %s", ErrFhirPathNotImplemented, cfn)
 			}
 			elementName := fd.JSONName()
+			if reservedWords[elementName] {
+				// Narrative.div: a reserved word is only an identifier when delimited.
+				elementName = "`" + elementName + "`"
+			}
 			if cof := fd.ContainingOneof(); cof != nil && cof.Name() == "choice" {
 				cappedName := strings.ToUpper(elementName[0:1]) + elementName[1:]
 				fhirpath[len(fhirpath)-1] += cappedName
